@@ -111,21 +111,21 @@ type lookupRec struct {
 
 // capture walks one served layer and judges clauses 1, 2, 3 and 5 on the way.
 type capture struct {
-	r      *vf.Run
-	rng    *prng.R
-	drv    *driver
-	base   uint32
-	mode   layer.OverlayOpaqueType
-	exp    *oc.Node        // expected lower view of this layer (clause 1 is judged by the caller with Diff)
-	rawFS  *gen.FS         // the layer tar as a plain tar model: raw child names per directory
-	groups map[string]string // clean path -> hardlink group id
-	ctx    map[string]any  // replay context
-	inoPaths map[uint64][]string
-	nodes    int
+	r         *vf.Run
+	rng       *prng.R
+	drv       *driver
+	base      uint32
+	mode      layer.OverlayOpaqueType
+	exp       *oc.Node          // expected lower view of this layer (clause 1 is judged by the caller with Diff)
+	rawFS     *gen.FS           // the layer tar as a plain tar model: raw child names per directory
+	groups    map[string]string // clean path -> hardlink group id
+	ctx       map[string]any    // replay context
+	inoPaths  map[uint64][]string
+	nodes     int
 	truncated bool
 	// observations
 	nLookups, nReaddirs, nPre, nPost int
-	orders map[string]bool
+	orders                           map[string]bool
 }
 
 func (c *capture) violate(key, what string, extra map[string]any) {
